@@ -153,8 +153,13 @@ class Stack(Formattable):
             type(self.error), self.error, self.error.__traceback__
         ):
             if line != "Traceback (most recent call last):\n":
-                for subline in line.splitlines(True):
-                    yield "  " + subline
+                # Split on "\n" only: str.splitlines() would also break
+                # at "\r", "\x0c", "\u2028", etc within an exception message,
+                # producing entries that are not newline-terminated lines
+                if line.endswith("\n"):
+                    line = line[:-1]
+                for subline in line.split("\n"):
+                    yield "  " + subline + "\n"
 
     def as_stdlib_summary(
         self,
